@@ -160,7 +160,29 @@ def record_diff(a, b, opts, views=True, timeout=8.0):
                     raise
                 except Exception:
                     chained = -1
-                ev.append({"e": "views", "top": top, "edited": edited, "flat": int(flat), "hadEdits": bool(had),
+                # the same comparison asked for its total only AFTER its parts were refined and listed by somebody else (a
+                # formatter printing the tree, a bottom-up consumer): a fresh diff, every listed sub-edit refined completely,
+                # deepest first, and only then the root's own cost
+                try:
+                    ret2 = a.diff(b)
+                    top2 = ret2.edit_list[0] if getattr(ret2, "edit_list", None) else ret2.edit
+
+                    def parts(e, depth=0):
+                        if hasattr(e, "edits") and depth < 60:
+                            for s in list(e.edits()):
+                                parts(s, depth + 1)
+                        if depth:
+                            n = 0
+                            while e.tighten_bounds() and n < 100000:
+                                n += 1
+                    if top2 is not None:
+                        parts(top2)
+                    parts_first = int(ret2.edited_cost()) if top2 is not None else int(edited)
+                except Expired:
+                    raise
+                except Exception:
+                    parts_first = -1
+                ev.append({"e": "views", "top": top, "edited": edited, "flat": int(flat), "hadEdits": bool(had), "partsFirst": parts_first,
                            "ann": ann, "annRemoved": sorted(set(ann_removed)),
                            "annInserted": sorted(set(ann_inserted)), "chained": chained})
             else:
